@@ -52,7 +52,10 @@ LSQ_MESHES = {
     "ids_permuted": [(1, [3, 1, 5, 2]), (2, [1, 5, 2, 4])],
     "ids_with_gaps": [(9, [10, 20, 30, 40]), (3, [20, 30, 40, 50])],
     "ids_gaps_unordered": [(9, [40, 7, 12, 3]), (3, [7, 12, 3, 25])],
+    # a node whose neighbours all lie in one horizontal plane while the node itself does not (apex over a flat base)
+    "apex_over_flat_base": [(4, [11, 5, 8, 2])],
 }
+LSQ_XYZ = {"apex_over_flat_base": [(0, 0, 0), (1, 0, 0), (0, 1, 0), (0.25, 0.25, 1)]}
 
 
 TET2_XYZ = [(0, 0, 0), (1, 0, 0.25), (0, 1, 0), (0.25, 0, 1), (1, 1, 1.5)]
@@ -66,7 +69,8 @@ def bounds(tier):
                          "sharing a face and one hexahedron (right- and left-handed node order) with " +
                          ("concrete perturbed positions" if tier == "quick" else "concrete and with fully symbolic positions (15 / 24 symbols)") +
                          "; node and element ids with gaps and in any order, rows of different elements interleaved; least-squares operator: two tetrahedra "
-                         "with concrete positions, ids 1..N in order / permuted / with gaps / with gaps and unordered")}
+                         "with concrete positions, ids 1..N in order / permuted / with gaps / with gaps and unordered, one tetrahedron whose apex lies over a "
+                         "flat base; the same Gradient3D operator object asked again after the mesh was stretched in place")}
 
 
 def cases(tier):
@@ -75,6 +79,8 @@ def cases(tier):
     out = []
     # gradient of a linear field (symbolic gradient and offset): symbolic node positions where affordable
     out.append({"kind": "gradient3d", "mesh": "tet_one", "coords": "symbolic", "_weight": 5})
+    out.append({"kind": "gradient3d", "mesh": "tet_one", "coords": "symbolic", "again": True, "_weight": 5})
+    out.append({"kind": "gradient3d", "mesh": "hex_one", "coords": HEX_XYZ, "again": True, "_weight": 5})
     out.append({"kind": "gradient3d", "mesh": "tet_two_shared_face", "coords": TET2_XYZ, "row_order": "interleaved", "_weight": 5})
     out.append({"kind": "gradient3d", "mesh": "hex_one", "coords": HEX_XYZ, "_weight": 5})
     out.append({"kind": "gradient3d", "mesh": "hex_one", "coords": [(-x, y, z) for x, y, z in HEX_XYZ], "_weight": 5})   # left-handed node order
@@ -334,8 +340,21 @@ def _run_gradient3d(ctx, case):
                       index=pd.MultiIndex.from_tuples(rows, names=["node_id", "element_id"]))
     with warnings.catch_warnings():
         warnings.simplefilter("ignore")
-        grad = df.gradient_3D.gradient_of("f")
+        op = df.gradient_3D
+        grad = op.gradient_of("f")
+        grad_again = None
+        if case.get("again"):
+            # the same operator object asked again after the caller stretched the mesh in place (x -> 2 x, z -> z / 2) and
+            # re-evaluated the field: the answer belongs to the current mesh
+            df["x"] = df["x"] * 2
+            df["z"] = df["z"] / 2
+            df["f"] = np.array([g[0] * (2 * coords[n][0]) + g[1] * coords[n][1] + g[2] * (coords[n][2] / 2) + f0 for n, _ in rows], dtype=dt)
+            grad_again = op.gradient_of("f")
     ctx.signature(("gradient3d", case["mesh"], order, str(case.get("coords"))[:20]))
+    if grad_again is not None:
+        for nid in nodes:
+            got = [grad_again.loc[nid, c] for c in ("df_dx", "df_dy", "df_dz")]
+            ctx.claim(eq_struct(got, g) if ctx.sym else ctx.close(got, g, 1e-9), "gradient.linear_exact", ("second call after the mesh changed", nid, got, g))
     ctx.claim(sorted(grad.index) == sorted(nodes) and list(grad.columns) == ["df_dx", "df_dy", "df_dz"], "gradient.index",
               (list(grad.index), list(grad.columns)))
     obs = {}
@@ -376,7 +395,8 @@ def _run_gradient_lsq(ctx, case):
         for nid in ns:
             if nid not in nodes:
                 nodes.append(nid)
-    coords = {nid: tuple(float(v) for v in TET2_XYZ[k]) for k, nid in enumerate(nodes)}
+    xyz = LSQ_XYZ.get(case["mesh"], TET2_XYZ)
+    coords = {nid: tuple(float(v) for v in xyz[k]) for k, nid in enumerate(nodes)}
     g = [ctx.real(n) for n in ("gx", "gy", "gz")]
     f0 = ctx.real("f0")
     ctx.hint(sym_and(*[sym_and(v <= 4, v >= -4) for v in g + [f0]]))
